@@ -43,6 +43,10 @@ ASSUMPTIONS = [
 _FF = ForceField(name='c15toy')
 _FF.variables['elastic_network_bond_type'] = 6
 _FF.variables['elastic_network_res_min_dist'] = 2
+# the force field of the molecule a processor object may have handled before the one of the case
+_FF_OTHER = ForceField(name='c15other')
+_FF_OTHER.variables['elastic_network_bond_type'] = 1
+_FF_OTHER.variables['elastic_network_res_min_dist'] = 5
 
 
 # ---------------------------------------------------------------------------
@@ -72,11 +76,11 @@ def atoms_of(case):
     return atoms
 
 
-def build(case, order=None, rot=0, shift=(0, 0, 0), key0=0, keystep=1):
+def build(case, order=None, rot=0, shift=(0, 0, 0), key0=0, keystep=1, ff=None):
     atoms = atoms_of(case)
     if order is None:
         order = list(range(len(atoms)))
-    mol = Molecule(force_field=_FF, nrexcl=1)
+    mol = Molecule(force_field=ff if ff is not None else _FF, nrexcl=1)
     mol.meta['moltype'] = 'testmol'
     R = ROTATIONS[rot]
     key_of = {}
@@ -305,6 +309,10 @@ def run(case):
     mol, key_of = build(case)
     # one processor object for both presentations of the case: nothing may be carried over from one molecule to the next
     processor = ApplyRubberBand(**kwargs)
+    if len(atoms) % 2 == 0:
+        # ... and it has served a molecule of another force field (other bond type, other minimum separation) before
+        with capture_logs():
+            processor.run_molecule(build(case, ff=_FF_OTHER)[0])
     with capture_logs() as logs:
         processor.run_molecule(mol)
     rb, others = extract(mol, key_of)
